@@ -69,6 +69,9 @@ func (m *Machine) switchTo(next *G) {
 // gExit is called when a non-main goroutine ends: pass the baton on.
 func (m *Machine) gExit(g *G) {
 	rs := m.runnable()
+	if len(rs) == 0 && m.fireOneTimer() {
+		rs = m.runnable()
+	}
 	if len(rs) == 0 {
 		m.deadlock("goroutine exit")
 		return
@@ -118,6 +121,9 @@ func (m *Machine) block(ready func() bool, what string) {
 		g.what = what + " at " + m.where()
 		rs := m.runnable()
 		// g itself is not ready (we just tested), so rs excludes it
+		if len(rs) == 0 && m.fireOneTimer() {
+			continue // nothing else can run: time passes and a pending timer fires
+		}
 		if len(rs) == 0 {
 			m.deadlock(what)
 			// the path is over; park forever until killed
@@ -178,6 +184,9 @@ func (m *Machine) quiesce() {
 			}
 		}
 		if len(rs) == 0 {
+			if m.fireOneTimer() {
+				continue // quiescence includes the timers somebody is waiting for
+			}
 			return
 		}
 		me := m.cur
@@ -315,7 +324,11 @@ func (m *Machine) chanRecv(c *chanV) (value, bool) {
 		m.maybeFire(c)
 	}
 	c.recvWaiting++
+	if c.timer && !c.fired {
+		m.cur.waitTimers = []*chanV{c}
+	}
 	m.block(func() bool { return c.canRecv() }, fmt.Sprintf("chan receive (chan#%d)", c.id))
+	m.cur.waitTimers = nil
 	c.recvWaiting--
 	v, ok := c.takeRecv()
 	m.hbAcquire(c, "send")
@@ -383,7 +396,13 @@ func (m *Machine) doSelect(cases []selCase, blocking bool) (int, value, bool) {
 				sc.c.recvWaiting++
 			}
 		}
+		for _, sc := range cases {
+			if !sc.send && sc.c != nil && sc.c.timer && !sc.c.fired {
+				m.cur.waitTimers = append(m.cur.waitTimers, sc.c)
+			}
+		}
 		m.block(func() bool { return len(readyIdx()) > 0 }, "select")
+		m.cur.waitTimers = nil
 		for _, sc := range cases {
 			if !sc.send && sc.c != nil {
 				sc.c.recvWaiting--
@@ -530,4 +549,21 @@ func (m *Machine) pickDelay(rs []*G, cur *G) int {
 		}
 	}
 	return 0
+}
+
+// fireOneTimer: when nothing else can run, time passes: the first blocked goroutine that waits on a
+// timer which has not fired yet sees it fire. Reports whether a timer was fired.
+func (m *Machine) fireOneTimer() bool {
+	for _, g := range m.gs {
+		if g.state != 1 {
+			continue
+		}
+		for _, c := range g.waitTimers {
+			if c.timer && !c.fired {
+				c.fired = true
+				return true
+			}
+		}
+	}
+	return false
 }
